@@ -44,6 +44,7 @@ func genC11(seed uint64, run int, tier string) Scenario {
 		}
 	}
 	sc.Prop = "C11"
+	sc.CutEnum = false
 	sc.Log = true
 	sc.Class = "log/" + sc.Class
 
